@@ -339,6 +339,7 @@ def run_family(case):
     x0 = ops[ms[0]]
     x1 = ops[ms[-1]]
     N0 = NumberOperator(x0)
+    tsym, usym = sympy.Symbol("t"), sympy.Symbol("u")
     base = [
         x0 + Dagger(x0),
         x0 * Dagger(x1) + Dagger(x0) * x1 if len(ms) > 1 else x0 * Dagger(x0),
@@ -346,10 +347,15 @@ def run_family(case):
         (N0 + 1) * x0 + Dagger(x1) * sympy.Rational(1, 2),
         sympy.I * x0 - sympy.I * Dagger(x0) + N0,
         Dagger(x1) * x0 * x1 if len(ms) > 1 else Dagger(x0) * x0 * x0,
+        # coefficients with complex *symbols* (not declared real) and functions of number operators
+        tsym * x0 + sympy.conjugate(tsym) * Dagger(x0),
+        tsym * Dagger(x1) * (N0 + 1) + usym * x0,
+        (Dagger(x0) * N0) if ms[0] in "abl" else Dagger(x0) * x1,
     ]
     V = []
     n = 0
     sp = Space(modes, D=15 if len(ms) <= 2 else 9)
+    sp.subs = {tsym: sympy.Rational(3, 10) + sympy.I * sympy.Rational(7, 10), usym: sympy.Rational(-1, 2) + sympy.I / 3}
 
     def check(label, nof, want, down, up):
         nonlocal n
